@@ -14,6 +14,7 @@ registered names are cached.  `Dom` is the structural domain: component chains s
 (acyclic), ids and names unique, base-glyph registrations in place.
 -/
 import DefconModel.Lemmas.ReprRun
+import DefconModel.Lemmas.ReprName
 import DefconModel.Lemmas.ReprKey
 import DefconModel.Lemmas.ReprGeom
 import DefconModel.Lemmas.ReprDom
@@ -62,37 +63,47 @@ example : (Destr.names ["Contour.PointsChanged"]).hit "Points" = false := by dec
 
 /-! ### never stale -/
 
-/-- The full statement: from any world that satisfies the invariant, every sequence of public
-operations whose intermediate states stay in the structural domain ends in a world that satisfies
-it: whatever is requested next is answered with exactly what the factory computes now. -/
-def CacheCoherentFull (P : Params V) (T : Tables) : Prop :=
+/-- The statement: from any world that satisfies the invariant, every sequence of public operations
+whose intermediate states stay in the structural domain ends in a world that satisfies it: whatever
+is requested next is answered with exactly what the factory computes now. -/
+def CacheCoherent (P : Params V) (T : Tables) : Prop :=
   ∀ (w0 : World V) (ops : List Op), Inv P T w0 →
     (∀ pre, pre <+: ops → Dom (run P T w0 pre)) → Inv P T (run P T w0 ops)
 
-/-- **cache_coherent** (partial: see below).  Under the coverage obligation and the correctness of
-`Contour.move`'s patch, after ANY interleaving of requests (with any names / keyword arguments),
-cache-API calls, registrations, Contour / Component / Glyph / Groups mutators, `move`, base-glyph
-re-assignment, and insertion / removal of contours and components (including re-insertion of removed
-ones) — every cached value of every object equals its factory applied to the object's current view,
-the view of a component or glyph including its base glyphs' outlines to any nesting depth.
-What is missing for `CacheCoherentFull`: the three operations that change which glyph a name denotes
-(`newGlyph`, `delGlyph`, `rename`: a base glyph is added, deleted, renamed) are excluded by `hno`;
-their eviction routes are in the model, in `coverage_holds` (the four switching callbacks) and in the
-correspondence runs, but their preservation proof is not finished. -/
-theorem cache_coherent_partial (P : Params V) (T : Tables) (hcov : Coverage T = true) (hpatch : PatchOK P)
-    (w0 : World V) (ops : List Op) (h0 : Inv P T w0)
-    (hno : ∀ op, op ∈ ops → op.isNameOp = false)
-    (hdom : ∀ pre, pre <+: ops → Dom (run P T w0 pre)) : Inv P T (run P T w0 ops) := by
+/-- **cache_coherent.**  Under the coverage obligation and the correctness of `Contour.move`'s
+patch, after ANY interleaving of requests (any names / keyword arguments), cache-API calls,
+registrations, Contour / Component / Glyph / Groups mutators, `move`, base-glyph re-assignment,
+insertion / removal / re-insertion of contours and components, and creation, deletion and renaming of
+glyphs (so also of base glyphs: the observation switching of `Component`) — every cached value of
+every object equals its factory applied to the object's current view, where the view of a component
+or glyph includes its base glyphs' outlines to any nesting depth; objects without a dispatcher cache
+nothing.  The hypothesis `hdom` is the domain: component chains shorter than the fuel (acyclic), ids
+and names unique, registrations in place — checked at run time by the driver on every generated
+history (`domCheck`). -/
+theorem cache_coherent (P : Params V) (T : Tables) (hcov : Coverage T = true) (hpatch : PatchOK P) :
+    CacheCoherent P T := by
+  intro w0 ops h0 hdom
   induction ops generalizing w0 with
   | nil => exact h0
   | cons op rest ih =>
     have d0 : Dom w0 := hdom [] (List.nil_prefix)
     have d1 : Dom (step P T w0 op).1 := hdom [op] (by simp)
-    have i1 := step_inv_local P T hcov hpatch w0 op (hno op (by simp)) h0 d0 d1
-    refine ih (step P T w0 op).1 i1 (fun x hx => hno x (by simp [hx])) ?_
+    have i1 := step_inv P T hcov hpatch w0 op h0 d0 d1
+    refine ih (step P T w0 op).1 i1 ?_
     intro pre hpre
     have := hdom (op :: pre) (by simpa using hpre)
     simpa [run] using this
+
+/-- … for the tables of the source under test, from the empty font -/
+theorem cache_coherent_here (P : Params V) (hpatch : PatchOK P) (ops : List Op)
+    (hdom : ∀ pre, pre <+: ops → Dom (run P Gen.ReprTables.tables ({} : World V) pre)) :
+    Inv P Gen.ReprTables.tables (run P Gen.ReprTables.tables ({} : World V) ops) :=
+  cache_coherent P _ (by decide) hpatch _ ops (by
+    refine ⟨?_, ?_, ?_, ?_⟩
+    · intro o nm sk v h; simp [cacheOf, Cache.get?] at h
+    · intro o _ nm sk; simp [cacheOf, Cache.get?]
+    · intro o nm sk v h; simp [cacheOf, Cache.get?] at h
+    · intro r hr; cases hr) hdom
 
 /-- the world with nothing in it satisfies the invariant (so the theorem applies to every history
 that starts with an empty font) -/
@@ -105,9 +116,9 @@ theorem inv_empty (P : Params V) (T : Tables) : Inv P T ({} : World V) := by
 
 /-- a single step, for the tables of the source under test -/
 theorem step_coherent (P : Params V) (hpatch : PatchOK P) (w : World V) (op : Op)
-    (hn : op.isNameOp = false) (hinv : Inv P Gen.ReprTables.tables w) (hdom : Dom w)
+    (hinv : Inv P Gen.ReprTables.tables w) (hdom : Dom w)
     (hdom' : Dom (step P Gen.ReprTables.tables w op).1) : Inv P Gen.ReprTables.tables (step P Gen.ReprTables.tables w op).1 :=
-  step_inv_local P _ coverage_holds hpatch w op hn hinv hdom hdom'
+  step_inv P _ coverage_holds hpatch w op hinv hdom hdom'
 
 /-! ### computed once per change -/
 
@@ -250,6 +261,14 @@ example : digest (step exParams Gen.ReprTables.tables exWorld (.cmut 1 "reverse"
 /-- while `move` keeps (patches) the contour's bounds entry and evicts the rest -/
 example : (digest (step exParams Gen.ReprTables.tables exWorld (.cmove 1 5 5)).1).map
     (fun p => (p.1, p.2.map Prod.fst)) = [(Obj.contour 1, ["defcon.contour.bounds"])] := by decide
+
+/-- deleting C (the base of the base) empties the caches of the component in A and of A; the
+contour went with its glyph -/
+example : digest (step exParams Gen.ReprTables.tables exWorld (.delGlyph "C")).1 = [] := by decide
+
+/-- renaming C away does the same to A's component and A, and keeps the contour's entry -/
+example : (digest (step exParams Gen.ReprTables.tables exWorld (.rename "C" "D")).1).map (fun p => p.1) =
+    [Obj.contour 1] := by decide
 
 /-- `PatchOK` is satisfiable -/
 example : PatchOK exParams := by intro nm _ ver ox oy dx dy; rfl
